@@ -110,6 +110,16 @@ func report(c *cfg, results []*harnessResult, pkgFuncs map[string][]string, over
 			machinery = append(machinery, h.Name+": "+e)
 		}
 		for id, n := range h.Covers {
+			if n == 0 && h.Truncated {
+				// a capped harness has not explored everything: a witness it did not reach is not evidence of vacuity
+				if _, seen := covers[id]; !seen {
+					covers[id] = -1
+				}
+				continue
+			}
+			if covers[id] < 0 {
+				covers[id] = 0
+			}
 			covers[id] += n
 		}
 		for _, e := range r.stats.Errors {
